@@ -26,8 +26,8 @@ def nontrivial(case):
 def run(ctx):
     sc.prepare(ctx)
     if ctx.thorough:
-        jobs = [("one", 1, {}), ("two", 2, {}), ("sample", 8, {"seed": ctx.seed, "nsamples": 16000})]
-        n_exec = 2000
+        jobs = [("one", 1, {}), ("two", 2, {}), ("sample", 8, {"seed": ctx.seed, "nsamples": 12000})]
+        n_exec = 1500
     else:
         # quick: one seeded third of the two-field space
         jobs = [("one", 1, {}), ("two", 3, {}, [ctx.seed % 3]), ("sample", 1, {"seed": ctx.seed, "nsamples": 1200})]
